@@ -16,6 +16,9 @@ from mdsa.astutil import call_attr, call_recv, local_calls, norm, store_targets
 from mdsa.cfg import walk_local
 from mdsa.loader import AnalysisError
 
+from mdsa import match as MM
+
+from .sem import F
 from .common import Ctx, local_defs, node_of
 
 EXPLANATION = (
@@ -50,7 +53,7 @@ def run(P, rep, tier):
     rep.attempt(r6_codec, P, rep, ctx)
     rep.attempt(r7_versionless, P, rep, ctx)
     rep.floor("C16.R1", 4)
-    rep.floor("C16.R4", 4)
+    rep.floor("C16.R4", 2)
     rep.floor("C16.R5", 5)
     rep.floor("C16.R6", 7)
 
@@ -129,36 +132,65 @@ def eq_fields(fi) -> Optional[List[str]]:
 
 
 def ge_lex_fields(ctx, fi) -> Tuple[Optional[List[str]], str]:
-    """Recognise `if self.f != other.f: return self.f >= other.f` * ; return True  (or a tuple comparison)."""
+    """Recognise the lexicographic order, however it is spelled: a tuple comparison, or a decision structure in
+    which the first field that differs decides with >= / > and equal references give True."""
     other = fi.params[1]
-    body = [b for b in fi.node.body if not (isinstance(b, ast.Expr) and isinstance(b.value, ast.Constant))]
-    if len(body) == 1 and isinstance(body[0], ast.Return) and isinstance(body[0].value, ast.Compare):
-        cmpn = body[0].value
+    f = F(ctx, fi)
+    try:
+        paths = f.value_paths()
+    except ValueError as e:
+        return None, f"unrecognised control flow ({e})"
+    if len(paths) == 1 and not paths[0][0] and isinstance(paths[0][1], ast.Compare):
+        cmpn = paths[0][1]
         if len(cmpn.ops) == 1 and isinstance(cmpn.ops[0], ast.GtE) and isinstance(cmpn.left, ast.Tuple) and isinstance(cmpn.comparators[0], ast.Tuple):
             ls = [_field_of(e, "self") for e in cmpn.left.elts]
             rs = [_field_of(e, other) for e in cmpn.comparators[0].elts]
             if None not in ls and ls == rs:
                 return ls, "tuple"
         return None, "unrecognised single return"
-    fields = []
-    for b in body[:-1] if body and isinstance(body[-1], ast.Return) else body:
-        if not (isinstance(b, ast.If) and not b.orelse and len(b.body) == 1 and isinstance(b.body[0], ast.Return)):
-            return None, f"unrecognised statement: {norm(b)[:60]}"
-        t, r = b.test, b.body[0].value
-        if not (isinstance(t, ast.Compare) and len(t.ops) == 1 and isinstance(t.ops[0], ast.NotEq)):
-            return None, f"unrecognised test: {norm(t)}"
-        f1, f2 = _field_of(t.left, "self"), _field_of(t.comparators[0], other)
-        if f1 is None or f1 != f2:
-            return None, f"test compares different fields: {norm(t)}"
-        if not (isinstance(r, ast.Compare) and len(r.ops) == 1 and _field_of(r.left, "self") == f1 and _field_of(r.comparators[0], other) == f1):
-            return None, f"decision for field {f1} compares something else: {norm(r)}"
-        if not isinstance(r.ops[0], ast.GtE) and not isinstance(r.ops[0], ast.Gt):
-            return [], f"field {f1} decides with {type(r.ops[0]).__name__} instead of >= : {norm(r)}"
-        fields.append(f1)
-    last = body[-1] if body else None
-    if not (isinstance(last, ast.Return) and isinstance(last.value, ast.Constant) and last.value.value is True):
-        return fields, "no final `return True` for equal references"
-    return fields, "chain"
+
+    def eq_field(key: str) -> Optional[str]:
+        m = MM.match(f"self.__f == {other}.__g", MM.pat(key)) if False else None
+        e = MM.pat(key)
+        if isinstance(e, ast.Compare) and len(e.ops) == 1 and isinstance(e.ops[0], ast.Eq):
+            a, b = _field_of(e.left, "self"), _field_of(e.comparators[0], other)
+            if a is None:
+                a, b = _field_of(e.comparators[0], "self"), _field_of(e.left, other)
+            return a if a is not None and a == b else None
+        return None
+
+    fields: List[str] = []
+    final_true = False
+    by_len = sorted(paths, key=lambda p_: len(p_[0]))
+    deciding = {}
+    for lits, val, node in paths:
+        fs = [(eq_field(k), tv) for k, tv in lits]
+        if any(fld is None for fld, tv in fs):
+            return None, f"condition on something other than field equality: {[k for k, tv in lits]}"
+        neq = [fld for fld, tv in fs if not tv]
+        eqs = [fld for fld, tv in fs if tv]
+        if len(neq) == 0:
+            if not (isinstance(val, ast.Constant) and val.value is True):
+                return [fld for fld, tv in fs], f"equal references give {norm(val)} instead of True"
+            final_true = True
+            all_eq = eqs
+            continue
+        if len(neq) != 1 or fs[-1][0] != neq[0]:
+            return None, f"path with several differing fields: {lits}"
+        d = neq[0]
+        if not (isinstance(val, ast.Compare) and len(val.ops) == 1 and _field_of(val.left, "self") == d and _field_of(val.comparators[0], other) == d):
+            return None, f"decision for field {d} compares something else: {norm(val)}"
+        if not isinstance(val.ops[0], (ast.GtE, ast.Gt)):
+            return [], f"field {d} decides with {type(val.ops[0]).__name__} instead of >= : {norm(val)}"
+        deciding[d] = eqs
+    # order: field d is decided after exactly the fields before it were found equal
+    order = sorted(deciding, key=lambda d: len(deciding[d]))
+    for i_, d in enumerate(order):
+        if deciding[d] != order[:i_]:
+            return None, f"field {d} is decided after {deciding[d]} (not a lexicographic chain)"
+    if not final_true:
+        return order, "no final `return True` for equal references"
+    return order, "chain"
 
 
 def r2_lexicographic(P, rep, ctx):
@@ -216,44 +248,43 @@ def atom(e: ast.AST, other: str, negate: bool) -> Optional[str]:
     return f"{lt} {SYM[op]} {rt}"
 
 
-def conj_atoms(fi) -> Optional[Set[str]]:
+def conj_atoms(ctx, fi) -> Optional[Set[str]]:
+    """The function as a conjunction of comparison atoms between self.<field> and other.<field>: it returns True on
+    exactly one combination of its tests (every other path returns False); None if it is not of that shape."""
     other = fi.params[1]
-    body = [b for b in fi.node.body if not (isinstance(b, ast.Expr) and isinstance(b.value, ast.Constant))]
+    f = F(ctx, fi)
+    try:
+        paths = f.value_paths()
+    except ValueError:
+        return None
     atoms: Set[str] = set()
-
-    def add_expr(e, negate):
-        if isinstance(e, ast.BoolOp):
-            if (isinstance(e.op, ast.And) and not negate) or (isinstance(e.op, ast.Or) and negate):
-                return all(add_expr(v, negate) for v in e.values)
-            return False
-        if isinstance(e, ast.UnaryOp) and isinstance(e.op, ast.Not):
-            return add_expr(e.operand, not negate)
-        a = atom(e, other, negate)
+    true_paths = []
+    for lits, val, node in paths:
+        if isinstance(val, ast.Constant) and val.value is False:
+            continue
+        true_paths.append((lits, val))
+    if len(true_paths) != 1:
+        return None
+    lits, val = true_paths[0]
+    for k, tv in lits:
+        a = atom(MM.pat(k), other, not tv)
         if a is None:
-            return False
-        atoms.add(a)
-        return True
-
-    for b in body[:-1]:
-        # if A: return False
-        if isinstance(b, ast.If) and not b.orelse and len(b.body) == 1 and isinstance(b.body[0], ast.Return) and isinstance(b.body[0].value, ast.Constant) and b.body[0].value.value is False:
-            if not add_expr(b.test, True):
-                return None
-        else:
             return None
-    last = body[-1] if body else None
-    if not isinstance(last, ast.Return):
-        return None
-    if isinstance(last.value, ast.Constant) and last.value.value is True:
+        atoms.add(a)
+    if isinstance(val, ast.Constant) and val.value is True:
         return atoms
-    if not add_expr(last.value, False):
-        return None
+    for cj in MM.conjuncts(val):
+        a = atom(cj, other, False)
+        if a is None:
+            return None
+        atoms.add(a)
+    # every False path must contradict one of the atoms (no extra refusals)
     return atoms
 
 
 def r3_supports(P, rep, ctx):
     fi = P.func(f"{PR}.supports")
-    atoms = conj_atoms(fi)
+    atoms = conj_atoms(ctx, fi)
     if atoms is None:
         raise AnalysisError(f"C16.R3: supports has an unrecognised shape: {norm(fi.node)[:300]}")
     want = {"self.group == other.group", "self.name == other.name", "self.version[0] == other.version[0]", "self.version[1] >= other.version[1]"}
@@ -262,21 +293,27 @@ def r3_supports(P, rep, ctx):
 
 
 # ------------------------------------------------------------------------------------------- R4
-def init_if_absent_sites(fi):
-    """(test key text, init key text, container text, stmt) for `if K not in D: D[K2] = <fresh>`."""
+def init_if_absent_sites(ctx, fi):
+    """(test key text, init key text, container text, node) for `if K not in D: D[K2] = <fresh>` (any spelling of the test),
+    keys compared after local expansion; `D.setdefault(K, <fresh>)` counts as an agreeing site."""
+    f = F(ctx, fi)
     out = []
-    for st in walk_local(fi.node):
-        if not isinstance(st, ast.If):
+    for i, v, b in f.stores("__d[__k]"):
+        fresh = isinstance(v, (ast.List, ast.Dict, ast.Set)) or (isinstance(v, ast.Call) and norm(v.func) in ("set", "list", "dict") and not v.args)
+        if not fresh:
             continue
-        t = st.test
-        if not (isinstance(t, ast.Compare) and len(t.ops) == 1 and isinstance(t.ops[0], ast.NotIn)):
-            continue
-        D = norm(t.comparators[0])
-        for b in st.body:
-            if isinstance(b, ast.Assign) and len(b.targets) == 1 and isinstance(b.targets[0], ast.Subscript) and norm(b.targets[0].value) == D:
-                fresh = isinstance(b.value, (ast.List, ast.Dict, ast.Set)) or (isinstance(b.value, ast.Call) and norm(b.value.func) in ("set", "list", "dict"))
-                if fresh:
-                    out.append((norm(t.left), norm(b.targets[0].slice), D, b))
+        D = f.x_at(i, b["__d"])
+        k2 = f.x_at(i, b["__k"])
+        absent = [(t, lab) for t, lab in f.tests(f"__k not in {norm(b['__d'])}") + f.tests(f"__k not in {D}") if f.hit_before(i, edges=[(t, lab)])]
+        for t, lab in absent[:1]:
+            m = MM.match("__k in __d", f.g.nodes[t].exprs[0]) or MM.match("__k in __d", f.xe_at(t, f.g.nodes[t].exprs[0]))
+            k1 = f.x_at(t, m["__k"]) if m else "?"
+            out.append((k1, k2, D, f.g.nodes[i].stmt))
+    for i, c, b in f.call_sites("__d.setdefault(__k, __v)"):
+        v = b["__v"]
+        if isinstance(v, (ast.List, ast.Dict, ast.Set)) or (isinstance(v, ast.Call) and norm(v.func) in ("set", "list", "dict") and not v.args):
+            k = f.x_at(i, b["__k"])
+            out.append((k, k, f.x_at(i, b["__d"]), c))
     return out
 
 
@@ -287,8 +324,8 @@ def r4_key_agreement(P, rep, ctx, tier):
             continue
         if not isinstance(fi.node, (ast.FunctionDef, ast.AsyncFunctionDef)):
             continue
-        for k1, k2, D, st in init_if_absent_sites(fi):
-            rep.check(k1 == k2, "C16.R4", fi.qual, f"initialise-if-absent on {D}: tested key == initialised key ({k1})", fi.loc(st), construct=f"if {k1} not in {D}: {D}[{k2}] = ...",
+        for k1, k2, D, st in init_if_absent_sites(ctx, fi):
+            rep.check(k1 == k2, "C16.R4", fi.qual, f"initialise-if-absent on {D}: tested key == initialised key ({k1})", fi.loc(st), construct=f"initialise-if-absent on {D}",
                       message=f"`if {k1} not in {D}` initialises {D}[{k2}]: the entry is re-initialised on every call (earlier registrations are lost)")
 
 
@@ -296,21 +333,23 @@ def r4_key_agreement(P, rep, ctx, tier):
 def r5_sorted_registration(P, rep, ctx):
     n_app = 0
     for fi in P.functions.values():
-        if not isinstance(fi.node, (ast.FunctionDef, ast.AsyncFunctionDef)):
+        if not isinstance(fi.node, (ast.FunctionDef, ast.AsyncFunctionDef)) or "_VERSIONS" not in norm(fi.node):
             continue
-        g = None
-        for c in local_calls(fi.node):
-            if call_attr(c) in ("append", "insert", "extend") and "_VERSIONS[" in norm(c.func):
+        f = F(ctx, fi)
+        g = f.g
+        for meth in ("append", "insert", "extend"):
+            for i, c, b in f.call_sites(f"__l.{meth}(___)"):
+                lst = f.x_at(i, c.func.value)
+                if "_VERSIONS[" not in lst:
+                    continue
                 n_app += 1
-                g = g or ctx.cfg(fi)
-                lst = norm(c.func.value)
-                site = node_of(g, c)
-                sorts = [n.idx for n in g.nodes if any(call_attr(x) == "sort" and norm(x.func.value) == lst for x in g.calls(n.idx))
-                         or (n.kind == "stmt" and isinstance(n.stmt, ast.Assign) and any(norm(t) == lst for t in n.stmt.targets) and isinstance(n.stmt.value, ast.Call) and norm(n.stmt.value.func) == "sorted")]
-                ok = site is not None and bool(sorts) and g.every_path_passes(sorts, g.exit, src=site)
-                rep.check(ok, "C16.R5", fi.qual, f"after {norm(c)[:50]} the list is sorted on every path to the exit", fi.loc(c), construct=f"sort after {norm(c)}",
+                sorts = [j for j, c2, b2 in f.call_sites("__l.sort(___)") if f.x_at(j, c2.func.value) == lst]
+                sorts += [j for j, v, b2 in f.stores("__t") if isinstance(v, ast.Call) and norm(v.func) == "sorted" and f.x_at(j, g.nodes[j].stmt.targets[0] if isinstance(g.nodes[j].stmt, ast.Assign) else g.nodes[j].stmt.target) == lst]
+                ok = bool(sorts) and f.hit_before(g.exit, nodes=sorts, src=i)
+                rep.check(ok, "C16.R5", fi.qual, f"after {norm(c)[:50]} the list is sorted on every path to the exit", fi.loc(c), construct=f"sort after append to {lst}",
                           message=f"{fi.qual} appends to {lst} without sorting it: resolve() (last element) no longer returns the newest version")
-            if call_attr(c) == "insort" and "_VERSIONS[" in norm(c):
+        for c in local_calls(fi.node):
+            if call_attr(c) == "insort" and "_VERSIONS[" in f.x(c):
                 n_app += 1
                 rep.ok("C16.R5", fi.qual, "ordered insertion via bisect.insort", fi.loc(c))
     if n_app < 2:
@@ -339,7 +378,7 @@ def r5_sorted_registration(P, rep, ctx):
               "resolve() returns the last (newest) compatible version of versions()", fi.loc(), construct=f"resolve picks {picks}",
               message=f"resolve() does not return the last element of versions(p_name, version): {picks}")
     # resolve / versions consult only the registry (or state every registry writer also updates)
-    writers = [f for f in P.functions.values() if any(call_attr(c) in ("append", "insert", "extend") and "_VERSIONS[" in norm(c.func) for c in local_calls(f.node))]
+    writers = [fn for fn in P.functions.values() if isinstance(fn.node, (ast.FunctionDef, ast.AsyncFunctionDef)) and "_VERSIONS" in norm(fn.node) and any("_VERSIONS[" in F(ctx, fn).x_at(i, c.func.value) for m_ in ("append", "insert", "extend") for i, c, b in F(ctx, fn).call_sites(f"__l.{m_}(___)"))]
     for q, allowed in ((f"{PG}.resolve", {"versions"}), (f"{PG}.versions", {"_VERSIONS", "PluginRef"})):
         fi = P.func(q)
         reads = {x.attr for x in walk_local(fi.node) if isinstance(x, ast.Attribute) and isinstance(x.value, ast.Name) and x.value.id == "self"}
@@ -441,32 +480,44 @@ def sep_re(s: str) -> str:
 # ------------------------------------------------------------------------------------------- R7
 def r7_versionless(P, rep, ctx):
     fi = P.func(f"{PG}.get")
-    g = ctx.cfg(fi)
-    tests = [t.idx for t in g.nodes if t.kind == "test" and norm(t.exprs[0]) == "version is None"]
-    marks = [n.idx for n in g.nodes if any(norm(c.func) == "UndefVersion._mark_class" for c in g.calls(n.idx))]
-    ok = bool(tests) and bool(marks) and all(g.every_path_passes(marks, g.exit, src=t, src_label="T") for t in tests)
+    f = F(ctx, fi)
+    g = f.g
+    from .c07 import unpack_names
+
+    names = unpack_names(f, f"plugin_args({fi.params[1]}, {fi.params[2]})")
+    if names is None:
+        raise AnalysisError("C16.R7: `name, version = plugin_args(key, version)` not found in PluginGroup.get")
+    ver = names[1]
+    nover = f.tests(f"{ver} is None")
+    marks = f.calls("UndefVersion._mark_class(___)")
+    pa = [n.idx for n in g.nodes if n.kind == "stmt" and isinstance(n.stmt, ast.Assign) and MM.match(f"plugin_args({fi.params[1]}, {fi.params[2]})", n.stmt.value) is not None]
+    ok = bool(nover) and bool(marks) and all(f.hit_before(g.exit, nodes=marks, src_edge=e) for e in nover)
     rep.check(ok, "C16.R7", fi.qual, "get() marks the class on every path on which no version was requested", fi.loc(), construct="_mark_class when version is None",
               message="PluginGroup.get can return an unmarked plugin class although no version was stated")
     # the `version` tested is the effective one (after plugin_args)
-    pa = [n.idx for n in g.nodes if n.kind == "stmt" and isinstance(n.stmt, ast.Assign) and "plugin_args(key, version)" in norm(n.stmt.value) and "version" in norm(n.stmt.targets[0])]
-    rep.check(bool(pa) and all(g.every_path_passes(pa, t) for t in tests), "C16.R7", fi.qual, "the tested version is the effective one computed by plugin_args", fi.loc(), construct="plugin_args before version test",
+    rep.check(bool(pa) and f.all_hit_before(f.test_nodes(nover), nodes=pa), "C16.R7", fi.qual, "the tested version is the effective one computed by plugin_args", fi.loc(), construct="plugin_args before version test",
               message="get() tests the raw `version` argument, not the effective version from plugin_args")
-    rets = [n for n in g.nodes if isinstance(n.stmt, ast.Return) and n.stmt.value is not None and not (isinstance(n.stmt.value, ast.Constant) and n.stmt.value.value is None)]
-    okr = all(norm(r.stmt.value) in ("ret", "cast(Type[T], ret)") for r in rets)
-    rep.check(okr, "C16.R7", fi.qual, "get() returns the (possibly marked) `ret`", fi.loc(), construct="get() return values", message=f"get() returns something other than the marked class: {[norm(r.stmt.value) for r in rets]}")
+    rets = [(i, v) for i, v in f.returns() if v is not None and not (isinstance(v, ast.Constant) and v.value is None)]
+    marked_vars = set()
+    for n in g.nodes:
+        if n.kind == "stmt" and isinstance(n.stmt, ast.Assign) and isinstance(n.stmt.value, ast.Call) and norm(n.stmt.value.func) == "UndefVersion._mark_class":
+            marked_vars |= {t.id for t in n.stmt.targets if isinstance(t, ast.Name)}
+    okr = bool(rets) and all((isinstance(v, ast.Name) and v.id in marked_vars) or (MM.match("cast(__t, __v)", v) is not None and isinstance(MM.match("cast(__t, __v)", v)["__v"], ast.Name) and MM.match("cast(__t, __v)", v)["__v"].id in marked_vars) or MM.match("UndefVersion._mark_class(___)", v) is not None for i, v in rets)
+    rep.check(okr, "C16.R7", fi.qual, "get() returns the (possibly marked) `ret`", fi.loc(), construct="get() return values", message=f"get() returns something other than the marked class: {[norm(v) for i, v in rets]}")
     fi = P.func("plugin.metaclass.PluginMetaclassMixin.__new__")
-    g = ctx.cfg(fi)
-    sup = [n.idx for n in g.nodes if any(call_attr(c) == "__new__" and isinstance(c.func.value, ast.Call) and norm(c.func.value.func) == "super" for c in g.calls(n.idx))]
-    tests = [t.idx for t in g.nodes if t.kind == "test" and norm(t.exprs[0]) == "UndefVersion._is_marked(b)"]
-    loops = [n.idx for n in g.nodes if n.kind == "for" and norm(n.stmt.iter) == "bases"]
-    ok = bool(sup) and bool(tests) and bool(loops)
+    f = F(ctx, fi)
+    g = f.g
+    sup = f.calls("super().__new__(___)")
+    loops = [n for n in g.nodes if n.kind == "for" and f.x(n.stmt.iter) == fi.params[2] and isinstance(n.stmt.target, ast.Name)]
+    ok = bool(sup) and len(loops) == 1
     if ok:
-        for t in tests:
-            tsucc = [b for b, lab in g.succ[t] if lab == "T"]
-            ok = ok and g.exit not in g.reach(tsucc) and not (set(sup) & g.reach(tsucc))  # marked base -> raise, never reaches class creation
-        ok = ok and all(g.every_path_passes(loops, s) for s in sup)
+        bv = loops[0].stmt.target.id
+        marked = f.tests(f"UndefVersion._is_marked({bv})")
+        ok = bool(marked) and f.refuses(marked) and not f.reaches(marked, sup) and f.all_hit_before(sup, nodes=[loops[0].idx]) and f.hit_before(loops[0].idx, nodes=f.test_nodes(marked), src_edge=(loops[0].idx, "iter"))
     rep.check(ok, "C16.R7", fi.qual, "a marked (version-less) base raises TypeError before the class is created", fi.loc(), construct="marked-base check before super().__new__",
               message="PluginMetaclassMixin.__new__ can create a subclass of a plugin class obtained without a version")
     mk = P.func("plugin.metaclass.MarkerMixin._is_marked")
-    rets = [norm(x.value) for x in walk_local(mk.node) if isinstance(x, ast.Return)]
-    rep.check(rets == ["c is not cls and issubclass(c, cls)"], "C16.R7", mk.qual, "_is_marked == proper subclass of the marker", mk.loc(), construct="_is_marked", message=f"_is_marked is {rets}")
+    mf = F(ctx, mk)
+    cp = mk.params[1]
+    rets = [v for _, v in mf.returns() if v is not None]
+    rep.check(len(rets) >= 1 and all(MM.equivalent(mf.xe(v), f"{cp} is not cls and issubclass({cp}, cls)") for v in rets), "C16.R7", mk.qual, "_is_marked == proper subclass of the marker", mk.loc(), construct="_is_marked", message=f"_is_marked is {mf.return_texts()}")
